@@ -573,7 +573,7 @@ func c11PendingConnect(c *run.Ctx) {
 	w := ep.W
 	defer w.Shutdown()
 	ep.F.Off = true
-	failKind := c.Rng.Intn(3)
+	failKind := c.Rng.Intn(4) // 3: the attempt succeeds
 	if err := ep.Init(); err != nil {
 		c.Violate("init-failed", err.Error(), nil)
 		return
@@ -589,7 +589,7 @@ func c11PendingConnect(c *run.Ctx) {
 		return sim.DialDecision{}
 	}
 	w.Broker.Connack = func(b *sim.Broker, cn *sim.Conn, p *wire.Packet) []byte {
-		if cn.Idx >= 2 {
+		if cn.Idx >= 2 && failKind != 3 {
 			if failKind == 1 {
 				return wire.Connack(false, byte(1+w.Rng.Intn(5)))
 			}
@@ -603,7 +603,7 @@ func c11PendingConnect(c *run.Ctx) {
 	d.Manual = true
 	d.StartReader()
 	detail := func() map[string]any {
-		return map[string]any{"attempt_fails_by": []string{"dial error", "refusal", "missing CONNACK"}[failKind], "trace_tail": w.TraceTail(traceN(c))}
+		return map[string]any{"attempt_ends_by": []string{"dial error", "refusal", "missing CONNACK", "success"}[failKind], "trace_tail": w.TraceTail(traceN(c))}
 	}
 	d.GrantWhenPaused(sim.StepTimeout)
 	if !w.WaitUntil(sim.StepTimeout, func() bool { return w.PointCountLocked("connect.resent") > 0 && w.ReaderQuietLocked() }) {
@@ -683,6 +683,10 @@ func c11PendingConnect(c *run.Ctx) {
 		c.Spoiled()
 		return false
 	}
+	if failKind == 3 {
+		c11PendingThenOnline(c, ep, reqs, detail, await)
+		return
+	}
 	// quits fired while the attempt is still pending
 	fired := 0
 	for i, r := range reqs {
@@ -739,6 +743,168 @@ func c11PendingConnect(c *run.Ctx) {
 	c.Sample(map[string]any{"scenario": "requests during a pending reconnect that fails", "requests": n, "quits_fired_while_pending": fired, "attempt_fails_by": []string{"dial error", "refusal", "missing CONNACK"}[failKind]})
 }
 
+// c11PendingThenOnline: quits fire while the reconnect is pending, then the
+// attempt succeeds; what was not canceled goes out, some of it gets abandoned
+// while the broker still owes the answer, new requests follow. Nobody may lose
+// the write lock, and no identifier may go out again while the broker still
+// holds an unanswered request under it.
+func c11PendingThenOnline(c *run.Ctx, ep *Episode, reqs []*c11Req, detail func() map[string]any, await func(*c11Req, string, string) bool) {
+	w, d := ep.W, ep.D
+	var moreReqs []*c11Req
+	// sent counts the requests that were not canceled before anything was written
+	sent := func() int {
+		n := 0
+		for _, r := range append(append([]*c11Req{}, reqs...), moreReqs...) {
+			if !(r.Call.Returned() && errors.Is(r.Call.Err, mqtt.ErrCanceled)) {
+				n++
+			}
+		}
+		return n
+	}
+	w.Mu.Lock()
+	holding := true
+	type openReq struct {
+		what string
+		seq  int64
+	}
+	open := map[uint16]openReq{}
+	var reused []string
+	w.Broker.OnPacket = func(cn *sim.Conn, p *wire.Packet) {
+		if p.Type != wire.SUBSCRIBE && p.Type != wire.UNSUBSCRIBE {
+			return
+		}
+		if o, ok := open[p.ID]; ok {
+			reused = append(reused, fmt.Sprintf("%s goes out with identifier %#04x while the broker still owes the answer to %s (received at #%d)", p, p.ID, o.what, o.seq))
+		}
+		open[p.ID] = openReq{p.String() + " " + strings.Join(p.Filters, ","), w.Now0()}
+	}
+	w.Broker.AckPolicy = func(b *sim.Broker, cn *sim.Conn, p *wire.Packet, reply []byte) string {
+		if holding && (p.Type == wire.SUBSCRIBE || p.Type == wire.UNSUBSCRIBE || p.Type == wire.PINGREQ) {
+			return "hold"
+		}
+		if p.Type == wire.SUBSCRIBE || p.Type == wire.UNSUBSCRIBE {
+			delete(open, p.ID)
+		}
+		return ""
+	}
+	w.Mu.Unlock()
+	// some give up while the connect is pending; nobody waits for them here
+	canceled := 0
+	for i, r := range reqs {
+		if r.Quit != nil && i%2 == 0 {
+			close(r.Quit)
+			r.QuitAt = w.Now()
+			canceled++
+		}
+	}
+	time.Sleep(time.Duration(c.Rng.Intn(3)) * time.Millisecond)
+	w.Open("attempt")
+	if !w.WaitUntil(sim.StepTimeout, func() bool { return w.PointCountLocked("connect.resent") >= 2 }) {
+		c.Inconclusive("reconnect slow")
+		c.Spoiled()
+		return
+	}
+	for _, r := range reqs {
+		if r.QuitAt != 0 {
+			if !await(r, "request-never-returns", "does not return although its quit fired while the connect attempt was pending") {
+				d.CloseAndWait()
+				return
+			}
+			if r.Call.Err != nil && !errors.Is(r.Call.Err, mqtt.ErrCanceled) && !errors.Is(r.Call.Err, mqtt.ErrAbandoned) {
+				c.Violate("quit-result-while-connect-pending", fmt.Sprintf("%s with its quit fired returned %v", r.Call.Method, r.Call.Err), detail())
+			}
+		}
+	}
+	// the others are on the wire now, unanswered; a few get abandoned
+	w.WaitUntil(sim.StepTimeout, func() bool {
+		// every request still in flight reached the broker, and the read routine is parked
+		n := 0
+		for _, e := range w.Trace {
+			if e.Kind == "broker.recv" && (strings.HasPrefix(e.Note, "SUBSCRIBE") || strings.HasPrefix(e.Note, "UNSUBSCRIBE") || strings.HasPrefix(e.Note, "PINGREQ") || strings.HasPrefix(e.Note, "PUBLISH")) {
+				n++
+			}
+		}
+		return n >= sent() && w.ReaderQuietLocked()
+	})
+	abandoned := 0
+	for _, r := range reqs {
+		if r.QuitAt == 0 && r.Quit != nil && !r.Call.Returned() {
+			close(r.Quit)
+			r.QuitAt = w.Now()
+			abandoned++
+			if !await(r, "request-never-returns", "does not return although its quit fired while it awaited the answer") {
+				d.CloseAndWait()
+				return
+			}
+		}
+	}
+	// new requests while the broker still owes the answers to abandoned ones
+	var more []*c11Req
+	for i := 0; i < 2+c.Rng.Intn(4); i++ {
+		r := &c11Req{Kind: "subscribe"}
+		f := fmt.Sprintf("pc/more/%d", i)
+		if i%2 == 0 {
+			r.Call = d.Go("Subscribe", func() error { return d.C.Subscribe(nil, f) })
+		} else {
+			r.Kind = "unsubscribe"
+			r.Call = d.Go("Unsubscribe", func() error { return d.C.Unsubscribe(nil, f) })
+		}
+		more = append(more, r)
+		moreReqs = append(moreReqs, r)
+	}
+	w.WaitUntil(sim.StepTimeout, func() bool {
+		// every request still in flight reached the broker, and the read routine is parked
+		n := 0
+		for _, e := range w.Trace {
+			if e.Kind == "broker.recv" && (strings.HasPrefix(e.Note, "SUBSCRIBE") || strings.HasPrefix(e.Note, "UNSUBSCRIBE") || strings.HasPrefix(e.Note, "PINGREQ") || strings.HasPrefix(e.Note, "PUBLISH")) {
+				n++
+			}
+		}
+		return n >= sent() && w.ReaderQuietLocked()
+	})
+	w.Mu.Lock()
+	holding = false
+	bad := append([]string(nil), reused...)
+	w.Mu.Unlock()
+	for _, b := range bad {
+		c.Violate("identifier-reused-while-broker-awaits", b, detail())
+		break
+	}
+	w.Broker.ReleaseHeld()
+	for _, r := range append(append([]*c11Req{}, reqs...), more...) {
+		if r.Call.Returned() {
+			continue
+		}
+		if !await(r, "request-never-returns", "does not return after the broker answered everything") {
+			d.CloseAndWait()
+			return
+		}
+	}
+	for _, r := range more {
+		if r.Call.Err != nil {
+			c.Violate("request-fails-on-healthy-connection", fmt.Sprintf("%s issued after the reconnect returned %v", r.Call.Method, r.Call.Err), detail())
+		}
+	}
+	// the write lock is still there for everybody
+	probe := &c11Req{Kind: "ping"}
+	probe.Call = d.Go("Ping", func() error { return d.C.Ping(nil) })
+	if !await(probe, "write-lock-lost", "issued after the canceled requests returned never gets through: the connection is online, nothing else is in flight") {
+		d.CloseAndWait()
+		return
+	}
+	if probe.Call.Err != nil {
+		c.Violate("request-fails-on-healthy-connection", fmt.Sprintf("Ping after the reconnect returned %v", probe.Call.Err), detail())
+	}
+	if !d.CloseAndWait() {
+		c.Spoiled()
+	}
+	c.Count("requests_during_pending_connect", len(reqs))
+	c.Count("quits_fired_during_pending_connect", canceled)
+	c.Count("requests_abandoned_with_answer_owed", abandoned)
+	c.Trigger(fmt.Sprintf("pending-connect|success|n=%d|canceled=%d|abandoned=%d", min(len(reqs), 4), min(canceled, 2), min(abandoned, 2)))
+	c.Sample(map[string]any{"scenario": "requests during a pending reconnect that succeeds", "requests": len(reqs), "canceled_while_pending": canceled, "abandoned_with_answer_owed": abandoned, "new_requests": len(more)})
+}
+
 func init() {
 	steps := []string{"answer-some", "answer-some", "duplicate", "unsolicited", "break", "quit", "more", "settle", "close", "bad-response"}
 	run.Register(&run.Prop{
@@ -751,7 +917,7 @@ func init() {
 			return 1200
 		},
 		ChunkSize:   40,
-		Rule:        "each case issues 2-40 (thorough: up to 512) concurrent Subscribe/SubscribeLimit*/Unsubscribe calls with unique filters (so request <-> packet identifier is read off the wire) plus 0-4 Ping calls, a quarter with a quit channel; the reference broker withholds every response and a PRNG script of 3-10 steps then answers subsets in random order, duplicates a response, sends unsolicited SUBACK/UNSUBACK/PINGRESP of the right spaces, fails random filter subsets with 0x80, sends a SUBACK with an illegal code or a surplus code for a pending request, breaks the connection, fires quits, issues more requests, calls Close; random yields/sleeps at the Ping hook points; finally everything still answerable is answered. Every 10th case drives the Ping slot hand-over window deterministically through the hook points ping.writefail / ping.quit (park the releasing Ping, let the read routine clear the slot, let a second Ping install, continue). Every 10th case issues 2-8 requests (all kinds, half with a quit) while a reconnect attempt is held pending for 45-85 ms, fires some quits while it is pending (ErrCanceled), then lets the attempt fail by dial error, refusal or missing CONNACK with no further attempt: every request returns ErrDown. Oracle per call, by logical-time intervals: it returns; nil only with a success response for ITS identifier delivered before the return; SubscribeError with exactly the filters its SUBACK failed, in order; ErrSubmit/ErrBreak/ErrDown only with a connection lost (or Close) before the return; ErrCanceled/ErrAbandoned only after its quit fired; ErrClosed only after Close; ErrMax for Ping only with another Ping in flight, for the others only with hundreds of them in flight during the call; successful Pings <= PINGRESPs delivered. Non-trivial: >= 2 requests racing responses or a loss; distinct by request counts and script.",
+		Rule:        "each case issues 2-40 (thorough: up to 512) concurrent Subscribe/SubscribeLimit*/Unsubscribe calls with unique filters (so request <-> packet identifier is read off the wire) plus 0-4 Ping calls, a quarter with a quit channel; the reference broker withholds every response and a PRNG script of 3-10 steps then answers subsets in random order, duplicates a response, sends unsolicited SUBACK/UNSUBACK/PINGRESP of the right spaces, fails random filter subsets with 0x80, sends a SUBACK with an illegal code or a surplus code for a pending request, breaks the connection, fires quits, issues more requests, calls Close; random yields/sleeps at the Ping hook points; finally everything still answerable is answered. Every 10th case drives the Ping slot hand-over window deterministically through the hook points ping.writefail / ping.quit (park the releasing Ping, let the read routine clear the slot, let a second Ping install, continue). Every 10th case issues 2-8 requests (all kinds, half with a quit) while a reconnect attempt is held pending for 45-85 ms, fires some quits while it is pending (ErrCanceled), then lets the attempt fail by dial error, refusal or missing CONNACK with no further attempt: every request returns ErrDown; or the attempt succeeds after quits fired during the wait, some of the requests then get abandoned with the answer owed and new ones follow (no identifier goes out again while the broker owes an answer under it, and a final Ping proves that nobody lost the write lock). One case keeps a request open while 8,200 others complete, so that the identifier counter comes round to it. Oracle per call, by logical-time intervals: it returns; nil only with a success response for ITS identifier delivered before the return; SubscribeError with exactly the filters its SUBACK failed, in order; ErrSubmit/ErrBreak/ErrDown only with a connection lost (or Close) before the return; ErrCanceled/ErrAbandoned only after its quit fired; ErrClosed only after Close; ErrMax for Ping only with another Ping in flight, for the others only with hundreds of them in flight during the call; successful Pings <= PINGRESPs delivered. Non-trivial: >= 2 requests racing responses or a loss; distinct by request counts and script.",
 		Assumptions: []string{"overlapping calls are judged by interval: a result is accepted when legal for some order of the critical events inside [call, return]", "porcupine is not used here: requests share no state beyond the slot count, which is checked by interval overlap"},
 		Run: func(c *run.Ctx) {
 			if c.Case%10 == 9 {
@@ -760,6 +926,12 @@ func init() {
 			}
 			if c.Case%10 == 8 {
 				c11PendingConnect(c)
+				return
+			}
+			if c.Case == 7 || c.Tier == "thorough" && c.Case%200 == 7 {
+				// one request stays open while 8,200 others complete: the identifier
+				// counter comes round to it, its late answer must still be its own
+				c17Unordered(c, 40, true)
 				return
 			}
 			nReq := 2 + c.Rng.Intn(39)
